@@ -73,3 +73,11 @@ chk('C07', 'exploration',
     'attribute classification are compared, with the shared section streams repositioned at every generator yield and between calls.',
     'Generators independent of elftools; address size = container default; classification judged only where DWARF fixes it.',
     'ground-truth generator oracle + stream-position poisoning at generator yields', 'DESIGN.md section 4 C07')
+chk('C01', 'exploration',
+    'Ground-truth oracle: generated images over class x byte order x machine x OS ABI x table placement x enlarged entry sizes x '
+    'extended-numbering escapes (small counts in quick; real counts >= 0xff00 sections / 0xffff segments in two quick and six thorough '
+    'images) with every specialised section kind, machine-specific and unknown type codes and awkward names; every header field, name, '
+    'specialised class, order, count, lookup and type filter is compared; coded fields are judged against the vendored registries with '
+    'my own machine map. The image writer is cross-validated against llvm-readobj in every run.',
+    'Image writer independent of elftools; section payloads well formed for their type; registries vendored.',
+    'ground-truth generator oracle + registry name oracle + stream poisoning + third-implementation cross-validation', 'DESIGN.md section 4 C01')
